@@ -33,6 +33,7 @@ func main() {
 		// Go-side statement of C05 (oracle): a reference map, and one held iterator per live element
 		ref := map[uint32]uint32{}
 		held := map[uint32]rbtree.Iterator{}
+		invReported := false
 		var opsLog []string
 		caseJSON := func() string {
 			return fmt.Sprintf(`{"ops":%q}`, strings.Join(opsLog, "; "))
@@ -100,8 +101,9 @@ func main() {
 			}
 			st, _ := alloc.VerifSnapshot()
 			root, mn, mx, cnt := t.VerifHeader()
-			if _, _, err := t.VerifCheck(); err != nil {
-				panic(err)
+			if _, _, err := t.VerifCheck(); err != nil && !invReported {
+				invReported = true
+				hv.Fail("rb-invariant", caseJSON(), "the tree breaks an invariant (search order, parent links, black root, no red-red, equal black height, count/min/max): "+err.Error())
 			}
 			fmt.Fprintf(wi, "%v %s min=%d max=%d n=%d\n", flag, dump(st, root), mn, mx, cnt)
 			// iterator stability: every iterator obtained at insertion still denotes its element
